@@ -497,7 +497,7 @@ Logs output 'y' and input parameters 'x' to a file every 'interval'.
         info = None
         args = (interval, filename, new, all, info)
         k = self.k
-        state = dict(_x=self._x,_y=self._y,_id=self._id,_info=self._info,k=k,label=self.label)
+        state = dict(_x=self._x,_y=self._y,_id=self._id,_info=self._info,k=k,label=self.label,_npts=self._npts)
         return (self.__class__, args, state)
     def __setstate__(self, state):
         self.__dict__.update(state)
@@ -571,7 +571,7 @@ print every 'yinterval'.
         info = None
         args = (interval, yint, xint, filename, new, all, info)
         k = self.k
-        state = dict(_x=self._x,_y=self._y,_id=self._id,_info=self._info,k=k,label=self.label)
+        state = dict(_x=self._x,_y=self._y,_id=self._id,_info=self._info,k=k,label=self.label,_npts=self._npts)
         return (self.__class__, args, state)
     def __setstate__(self, state):
         self.__dict__.update(state)
